@@ -46,63 +46,13 @@ theorem zip_map_self {α β : Type} (f : α → β) (xs : List α) : xs.zip (xs.
   | nil => rfl
   | cons x xs ih => simp [ih]
 
-/-- `<` of `bytes_repr_set` as a Bool relation -/
-def ltbV (a b : PyVal) : Bool := okTrue (pyLt a b)
-
-def unsc : PyVal → Option Scalar
-  | .sc s => some s
-  | _ => none
-
-/-- a permutation of a list of scalars is a list of scalars -/
-theorem perm_scalars {ks : List Scalar} {ys : List PyVal} (h : (ks.map PyVal.sc).Perm ys) :
-    ∃ ks', ys = ks'.map PyVal.sc ∧ ks.Perm ks' := by
-  refine ⟨ys.filterMap unsc, ?_, ?_⟩
-  · have hall : ∀ y ∈ ys, ∃ k, y = PyVal.sc k := fun y hy => by
-      obtain ⟨k, _, rfl⟩ := List.mem_map.mp (h.symm.subset hy)
-      exact ⟨k, rfl⟩
-    clear h
-    induction ys with
-    | nil => rfl
-    | cons y ys ih =>
-      obtain ⟨k, rfl⟩ := hall y (by simp)
-      have := ih (fun z hz => hall z (by simp [hz]))
-      simp only [List.filterMap_cons, unsc, List.map_cons]
-      rw [← this]
-  · have := h.filterMap unsc
-    rw [List.filterMap_map] at this
-    have he : (unsc ∘ PyVal.sc) = some := by funext k; rfl
-    rw [he, List.filterMap_some] at this
-    exact this
-
-/-! ### sets of scalars -/
-
-/-- Sorting the (element, pre-hash) pairs of a set of scalars: permutations of the elements give the same list. -/
-theorem set_sorted_eq (ks ks' : List Scalar) (hp : ks.Perm ks') (hk : keysOK ks = true) :
-    ∃ s, pySorted (fun a b : PyVal × Pre => pyLt a.1 b.1) ((ks.map PyVal.sc).zip ((ks.map PyVal.sc).map scNode)) = .ok s
-      ∧ pySorted (fun a b : PyVal × Pre => pyLt a.1 b.1) ((ks'.map PyVal.sc).zip ((ks'.map PyVal.sc).map scNode)) = .ok s := by
-  rw [zip_map_self, zip_map_self, List.map_map, List.map_map]
-  obtain ⟨ha, ht, _⟩ := keysOK_spec hk
-  let φ : Scalar → PyVal × Pre := (fun x => (x, scNode x)) ∘ PyVal.sc
-  have hφ1 : ∀ a b, (fun a b : PyVal × Pre => pyLt a.1 b.1) (φ a) (φ b) = scalarLt a b := by
-    intro a b; simp [φ, pyLt]
-  have hφ2 : ∀ a b, (fun a b : PyVal × Pre => ltbV a.1 b.1) (φ a) (φ b) = ltbS a b := by
-    intro a b; simp [φ, ltbV, ltbS, pyLt]
-  have hA := AgreeOn.map (lt' := fun a b : PyVal × Pre => pyLt a.1 b.1) (ltb' := fun a b : PyVal × Pre => ltbV a.1 b.1)
-    φ hφ1 hφ2 ha
-  have hT := TotalOn.map (ltb' := fun a b : PyVal × Pre => ltbV a.1 b.1) φ hφ2 ht
-  have hP : (ks.map φ).Perm (ks'.map φ) := hp.map φ
-  obtain ⟨h1, h2⟩ := pySorted_perm_eq _ _ _ _ hP hA hT
-  exact ⟨_, h2, by rw [← h1]; exact h2⟩
-
 /-! ### dicts and objects -/
 
-/-- Sorting `(key, pre-hash)` items by key: if the `(key, digest)` multisets agree, the sorted `(key, digest)` lists
-    agree. -/
+/-- Sorting `(key, pre-hash)` items by key representation: if the `(key, digest)` multisets agree, the sorted
+    `(key, digest)` lists agree. -/
 theorem sorted_items_eq (ps qs : List (Scalar × Pre)) (hk : keysOK (ps.map (·.1)) = true)
     (hperm : (ps.map (digestItem H)).Perm (qs.map (digestItem H))) :
-    ∃ sx sy, pySorted (fun a b : Scalar × Pre => scalarLt a.1 b.1) ps = .ok sx
-      ∧ pySorted (fun a b : Scalar × Pre => scalarLt a.1 b.1) qs = .ok sy
-      ∧ sx.map (digestItem H) = sy.map (digestItem H) := by
+    (sortItems ps).map (digestItem H) = (sortItems qs).map (digestItem H) := by
   have hkeys : ∀ (l : List (Scalar × Pre)), (l.map (digestItem H)).map (·.1) = l.map (·.1) := by
     intro l; simp [digestItem, List.map_map, Function.comp_def]
   have hkperm : (ps.map (·.1)).Perm (qs.map (·.1)) := by
@@ -110,14 +60,13 @@ theorem sorted_items_eq (ps qs : List (Scalar × Pre)) (hk : keysOK (ps.map (·.
     rw [hkeys, hkeys] at this
     exact this
   have hk' : keysOK (qs.map (·.1)) = true := keysOK_perm hkperm hk
-  obtain ⟨hA, hT⟩ := pairs_total (β := Pre) hk
-  obtain ⟨hA', hT'⟩ := pairs_total (β := Pre) hk'
-  let ltbP : Scalar × Pre → Scalar × Pre → Bool := fun a b => ltbS a.1 b.1
-  let ltbD : Scalar × Bytes → Scalar × Bytes → Bool := fun a b => ltbS a.1 b.1
-  refine ⟨pySortedB ltbP ps, pySortedB ltbP qs, pySorted_eq_B _ _ ps hA, pySorted_eq_B _ _ qs hA', ?_⟩
-  -- both mapped lists are sorted by key and permutations of the same multiset
+  have hT := pairs_total (β := Pre) hk
+  have hT' := pairs_total (β := Pre) hk'
+  let ltbP : Scalar × Pre → Scalar × Pre → Bool := fun a b => ltbK a.1 b.1
+  let ltbD : Scalar × Bytes → Scalar × Bytes → Bool := fun a b => ltbK a.1 b.1
+  rw [sortItems_eq, sortItems_eq]
   have hkD : keysOK ((ps.map (digestItem H)).map (·.1)) = true := by rw [hkeys]; exact hk
-  obtain ⟨_, hTD⟩ := pairs_total (β := Bytes) hkD
+  have hTD := pairs_total (β := Bytes) hkD
   have hs1 : ((pySortedB ltbP ps).map (digestItem H)).Pairwise (LeB ltbD) := by
     rw [List.pairwise_map]
     exact pySortedB_sorted ltbP ps hT
@@ -136,8 +85,8 @@ theorem sorted_items_eq (ps qs : List (Scalar × Pre)) (hk : keysOK (ps.map (·.
   · exact hEq
   · exfalso
     unfold LeB at hab hba
-    have hab' : ltbS b.1 a.1 = false := hab
-    have hba' : ltbS a.1 b.1 = false := hba
+    have hab' : ltbK b.1 a.1 = false := hab
+    have hba' : ltbK a.1 b.1 = false := hba
     rcases hTD.total a ha' b hb' hEq with h1 | h1
     · rw [h1] at hba'; cases hba'
     · rw [h1] at hab'; cases hab'
@@ -235,9 +184,9 @@ theorem order_indep_val : ∀ (v w : PyVal), Equiv v w → sortable v = true →
     have hk' : keysOK (ps.map (·.1)) = true := by rw [preItems_keys h1]; exact hk
     have hpm : (ps.map (digestItem H)).Perm (qs.map (digestItem H)) := by
       rw [h3]; exact h5.map _
-    obtain ⟨sx, sy, e1, e2, e3⟩ := sorted_items_eq H ps qs hk' hpm
-    refine ⟨_, _, by simp only [pre, h1, e1, except_bind_ok, except_pure]; rfl,
-      by simp only [pre, h4, e2, except_bind_ok, except_pure]; rfl, EncEq.of_parts H ?_⟩
+    have e3 := sorted_items_eq H ps qs hk' hpm
+    refine ⟨_, _, by simp only [pre, h1, except_bind_ok, except_pure]; rfl,
+      by simp only [pre, h4, except_bind_ok, except_pure]; rfl, EncEq.of_parts H ?_⟩
     rw [evalPureList_wrapMap, evalPureList_wrapMap, e3]
   | .obj i c xs, w, he, hs => by
     cases w <;> simp only [Equiv] at he
@@ -250,9 +199,9 @@ theorem order_indep_val : ∀ (v w : PyVal), Equiv v w → sortable v = true →
     have hk' : keysOK (ps.map (·.1)) = true := by rw [preItems_keys h1]; exact hk
     have hpm : (ps.map (digestItem H)).Perm (qs.map (digestItem H)) := by
       rw [h3]; exact h5.map _
-    obtain ⟨sx, sy, e1, e2, e3⟩ := sorted_items_eq H ps qs hk' hpm
-    refine ⟨_, _, by simp only [pre, h1, e1, except_bind_ok, except_pure]; rfl,
-      by simp only [pre, h4, e2, except_bind_ok, except_pure]; rfl, EncEq.of_parts H ?_⟩
+    have e3 := sorted_items_eq H ps qs hk' hpm
+    refine ⟨_, _, by simp only [pre, h1, except_bind_ok, except_pure]; rfl,
+      by simp only [pre, h4, except_bind_ok, except_pure]; rfl, EncEq.of_parts H ?_⟩
     rw [evalPureList_wrapMap, evalPureList_wrapMap, e3]
   | .func i b code cells globals, w, he, hs => by
     cases w <;> simp only [Equiv] at he
